@@ -69,11 +69,8 @@ fn pinned_margin(id: u64, lon: f64, lat: f64) -> bool {
     }
 }
 
-pub fn generate(dir: &str) -> Result<(), String> {
-    std::fs::create_dir_all(dir).map_err(|e| e.to_string())?;
-    // ---- cells
-    let cells = golden_cells();
-    let recs: Vec<CellRec> = cells
+fn cell_records(cells: &[u64]) -> Vec<CellRec> {
+    cells
         .par_iter()
         .filter_map(|&c| {
             let (face, poly) = subj::pentagon(c).ok()?;
@@ -93,12 +90,15 @@ pub fn generate(dir: &str) -> Result<(), String> {
                 .collect();
             Some(CellRec { id: c, centre, centre_pinned: cp, corners })
         })
-        .collect();
-    let mut f = std::fs::File::create(format!("{}/cells.bin", dir)).map_err(|e| e.to_string())?;
+        .collect()
+}
+
+fn write_cells(path: &str, recs: &[CellRec]) -> Result<(), String> {
+    let mut f = std::fs::File::create(path).map_err(|e| e.to_string())?;
     let mut buf: Vec<u8> = Vec::new();
     buf.extend_from_slice(MAGIC_CELLS);
     buf.extend_from_slice(&(recs.len() as u64).to_le_bytes());
-    for r in &recs {
+    for r in recs {
         buf.extend_from_slice(&r.id.to_le_bytes());
         buf.extend_from_slice(&r.centre.0.to_le_bytes());
         buf.extend_from_slice(&r.centre.1.to_le_bytes());
@@ -110,7 +110,146 @@ pub fn generate(dir: &str) -> Result<(), String> {
             buf.push(c.2 as u8);
         }
     }
-    f.write_all(&buf).map_err(|e| e.to_string())?;
+    f.write_all(&buf).map_err(|e| e.to_string())
+}
+
+fn write_looks(path: &str, looks: &[LookRec]) -> Result<(), String> {
+    let mut buf: Vec<u8> = Vec::new();
+    buf.extend_from_slice(MAGIC_LOOK);
+    buf.extend_from_slice(&(looks.len() as u64).to_le_bytes());
+    for l in looks {
+        buf.extend_from_slice(&l.lon.to_le_bytes());
+        buf.extend_from_slice(&l.lat.to_le_bytes());
+        buf.push(l.res as u8);
+        buf.extend_from_slice(&l.id.to_le_bytes());
+        buf.push(l.pinned as u8);
+    }
+    std::fs::File::create(path).and_then(|mut f| f.write_all(&buf)).map_err(|e| e.to_string())
+}
+
+fn look(lon: f64, lat: f64, r: i32) -> Option<LookRec> {
+    let id = subj::lookup(lon, lat, r).ok()?;
+    Some(LookRec { lon, lat, res: r, id, pinned: rc::resolution(id) == Some(r) && pinned_margin(id, lon, lat) })
+}
+
+/// second-generation cells: positions whose low 8 / 12 / 16 curve digits are all 0 or all 3 below a
+/// pseudo-random prefix (word-aligned ids, first / last descendants many levels down), every
+/// (face, quintant), resolutions from 10 up
+fn golden_cells2() -> Vec<u64> {
+    let mut v = Vec::new();
+    let mut x: u64 = 0x2545F4914F6CDD1D;
+    for face in 0..12u64 {
+        for quintant in 0..5u64 {
+            for res in [10, 13, 14, 17, 18, 19, 21, 22, 25, 26, 28, 29] {
+                let levels = (res - 1) as u32;
+                for k in [8u32, 12, 16, 20] {
+                    if k >= levels {
+                        continue;
+                    }
+                    for fill in [0u64, 3] {
+                        for _ in 0..2 {
+                            x ^= x << 13;
+                            x ^= x >> 7;
+                            x ^= x << 17;
+                            let hi_digits = levels - k;
+                            let mut prefix = x & ((1u64 << (2 * hi_digits.min(31))) - 1);
+                            // last prefix digit differs from the fill digit
+                            if prefix & 3 == fill {
+                                prefix ^= 1;
+                            }
+                            let low = if fill == 0 { 0 } else { (1u64 << (2 * k)) - 1 };
+                            let s = (prefix << (2 * k)) | low;
+                            if let Some(id) = rc::encode(rc::Tuple { face, quintant, s, res }) {
+                                v.push(id);
+                            }
+                        }
+                    }
+                }
+            }
+        }
+    }
+    v.sort_unstable();
+    v.dedup();
+    v
+}
+
+/// GOLDEN gen2: additional frozen tables (cells2.bin, lookups2.bin), same record formats
+pub fn generate2(dir: &str) -> Result<(), String> {
+    std::fs::create_dir_all(dir).map_err(|e| e.to_string())?;
+    let recs2 = cell_records(&golden_cells2());
+    write_cells(&format!("{}/cells2.bin", dir), &recs2)?;
+    let mut looks: Vec<LookRec> = Vec::new();
+    // (a) the same physical points written with other longitude windings, all resolutions
+    let pts = golden_points();
+    let wound: Vec<LookRec> = pts
+        .par_iter()
+        .enumerate()
+        .flat_map(|(i, &(lon, lat))| {
+            let mut out = Vec::new();
+            let ks: &[f64] = match i % 4 {
+                0 => &[360.0],
+                1 => &[-360.0],
+                2 => &[720.0, -720.0],
+                _ => &[],
+            };
+            for k in ks {
+                for r in 0..=29 {
+                    out.extend(look(lon + k, lat, r));
+                }
+            }
+            out
+        })
+        .collect();
+    looks.extend(wound);
+    // (b) the centre the reference reports for a cell (raw longitude, may be below -180), looked up at
+    // the cell's resolution
+    let (cells1, _) = load_files(&format!("{}/cells.bin", dir), None)?;
+    let centre_looks: Vec<LookRec> = cells1
+        .par_iter()
+        .chain(recs2.par_iter())
+        .filter_map(|r| {
+            let res = rc::resolution(r.id)?;
+            if res < 0 {
+                return None;
+            }
+            look(r.centre.0, r.centre.1, res)
+        })
+        .collect();
+    looks.extend(centre_looks);
+    // (c) interior points of the second-generation cells
+    let extra: Vec<LookRec> = recs2
+        .par_iter()
+        .flat_map(|r| {
+            let mut out = Vec::new();
+            if let Ok((face, poly)) = geo::cell_poly(r.id) {
+                let pts = geo::cell_interior_points(&poly, &[0.7]);
+                for q in [pts[1], pts[4]] {
+                    if let Ok(v) = subj::inverse(q, face) {
+                        let (lon, lat) = rg::vec_to_ll(v);
+                        out.extend(look(lon, lat, rc::resolution(r.id).unwrap()));
+                    }
+                }
+            }
+            out
+        })
+        .collect();
+    looks.extend(extra);
+    write_looks(&format!("{}/lookups2.bin", dir), &looks)?;
+    let prov = json!({
+        "generator": "a5check GOLDEN gen2 (harness/src/checks/golden.rs)",
+        "cells2": recs2.len(), "cells2_centre_pinned": recs2.iter().filter(|r| r.centre_pinned).count(),
+        "lookups2": looks.len(), "lookups2_pinned": looks.iter().filter(|l| l.pinned).count(),
+    });
+    std::fs::write(format!("{}/GENERATED2.json", dir), serde_json::to_string_pretty(&prov).unwrap()).map_err(|e| e.to_string())?;
+    println!("golden2: {}", prov);
+    Ok(())
+}
+
+pub fn generate(dir: &str) -> Result<(), String> {
+    std::fs::create_dir_all(dir).map_err(|e| e.to_string())?;
+    // ---- cells
+    let recs = cell_records(&golden_cells());
+    write_cells(&format!("{}/cells.bin", dir), &recs)?;
     // ---- lookups: lattice x all resolutions
     let pts = golden_points();
     let mut looks: Vec<LookRec> = pts
@@ -145,17 +284,7 @@ pub fn generate(dir: &str) -> Result<(), String> {
         })
         .collect();
     looks.extend(extra);
-    let mut buf: Vec<u8> = Vec::new();
-    buf.extend_from_slice(MAGIC_LOOK);
-    buf.extend_from_slice(&(looks.len() as u64).to_le_bytes());
-    for l in &looks {
-        buf.extend_from_slice(&l.lon.to_le_bytes());
-        buf.extend_from_slice(&l.lat.to_le_bytes());
-        buf.push(l.res as u8);
-        buf.extend_from_slice(&l.id.to_le_bytes());
-        buf.push(l.pinned as u8);
-    }
-    std::fs::File::create(format!("{}/lookups.bin", dir)).and_then(|mut f| f.write_all(&buf)).map_err(|e| e.to_string())?;
+    write_looks(&format!("{}/lookups.bin", dir), &looks)?;
     let pinned_l = looks.iter().filter(|l| l.pinned).count();
     let pinned_c = recs.iter().filter(|r| r.centre_pinned).count();
     let prov = json!({
@@ -179,10 +308,22 @@ fn rd_f64(b: &[u8], o: &mut usize) -> f64 {
 }
 
 pub fn load(dir: &str) -> Result<(Vec<CellRec>, Vec<LookRec>), String> {
+    let (mut c, mut l) = load_files(&format!("{}/cells.bin", dir), Some(&format!("{}/lookups.bin", dir)))?;
+    let (c2, l2) = load_files(&format!("{}/cells2.bin", dir), Some(&format!("{}/lookups2.bin", dir)))?;
+    c.extend(c2);
+    l.extend(l2);
+    Ok((c, l))
+}
+
+pub fn load_second_generation(dir: &str) -> Result<(Vec<CellRec>, Vec<LookRec>), String> {
+    load_files(&format!("{}/cells2.bin", dir), None)
+}
+
+fn load_files(cells_path: &str, looks_path: Option<&str>) -> Result<(Vec<CellRec>, Vec<LookRec>), String> {
     let mut b = Vec::new();
-    std::fs::File::open(format!("{}/cells.bin", dir)).and_then(|mut f| f.read_to_end(&mut b)).map_err(|e| format!("golden/cells.bin: {}", e))?;
+    std::fs::File::open(cells_path).and_then(|mut f| f.read_to_end(&mut b)).map_err(|e| format!("{}: {}", cells_path, e))?;
     if &b[..8] != MAGIC_CELLS {
-        return Err("bad magic in cells.bin".into());
+        return Err(format!("bad magic in {}", cells_path));
     }
     let mut o = 8;
     let n = rd_u64(&b, &mut o) as usize;
@@ -203,10 +344,14 @@ pub fn load(dir: &str) -> Result<(Vec<CellRec>, Vec<LookRec>), String> {
         }
         cells.push(CellRec { id, centre: (lon, lat), centre_pinned: cp, corners });
     }
+    let looks_path = match looks_path {
+        Some(p) => p,
+        None => return Ok((cells, vec![])),
+    };
     let mut b = Vec::new();
-    std::fs::File::open(format!("{}/lookups.bin", dir)).and_then(|mut f| f.read_to_end(&mut b)).map_err(|e| format!("golden/lookups.bin: {}", e))?;
+    std::fs::File::open(looks_path).and_then(|mut f| f.read_to_end(&mut b)).map_err(|e| format!("{}: {}", looks_path, e))?;
     if &b[..8] != MAGIC_LOOK {
-        return Err("bad magic in lookups.bin".into());
+        return Err(format!("bad magic in {}", looks_path));
     }
     let mut o = 8;
     let n = rd_u64(&b, &mut o) as usize;
@@ -293,6 +438,41 @@ pub fn run(tier: &str, verif_dir: &str) -> Report {
     let ls: Vec<&LookRec> = looks.iter().step_by(stride).collect();
     let vs: Vec<Viol> = ls.par_iter().flat_map(|l| check_look(l)).collect();
     rep.sink.extend(vs);
+    // the same table once more in an order no ascending sweep produces: one fresh thread walks every
+    // 7th pinned lookup by DESCENDING resolution (and a second one by a jumping order), then a slice of
+    // the cells finest first; tables grown lazily per resolution must not depend on the order of use
+    let mut order_pass = 0u64;
+    {
+        let pick: Vec<&LookRec> = ls.iter().copied().filter(|l| l.pinned).step_by(7).collect();
+        let cpick: Vec<&CellRec> = cs.iter().copied().step_by(11).collect();
+        let jump = |r: i32| -> i32 { (r * 11 + 5) % 30 };
+        let res: Vec<Vec<Viol>> = std::thread::scope(|sc| {
+            let h1 = sc.spawn(|| {
+                let mut v: Vec<&LookRec> = pick.clone();
+                v.sort_by_key(|l| -l.res);
+                let mut out: Vec<Viol> = v.iter().flat_map(|l| check_look(l)).collect();
+                let mut c: Vec<&CellRec> = cpick.clone();
+                c.sort_by_key(|r| -(rc::resolution(r.id).unwrap_or(0)));
+                out.extend(c.iter().flat_map(|r| check_cell(r)));
+                out
+            });
+            let h2 = sc.spawn(|| {
+                let mut v: Vec<&LookRec> = pick.clone();
+                v.sort_by_key(|l| jump(l.res));
+                let mut out: Vec<Viol> = v.iter().flat_map(|l| check_look(l)).collect();
+                let mut c: Vec<&CellRec> = cpick.clone();
+                c.sort_by_key(|r| jump(rc::resolution(r.id).unwrap_or(0).max(0)));
+                out.extend(c.iter().flat_map(|r| check_cell(r)));
+                out
+            });
+            vec![h1.join().unwrap(), h2.join().unwrap()]
+        });
+        order_pass += 2 * (pick.len() + cpick.len()) as u64;
+        for v in res {
+            rep.sink.extend(v);
+        }
+    }
+    rep.set("entries_re_evaluated_in_descending_and_jumping_resolution_order", json!(order_pass));
     // coverage matrix: face x quintant x resolution of the stored cells and pinned answers
     let mut combos: BTreeMap<(u64, u64, i32), u64> = BTreeMap::new();
     for r in &cs {
@@ -311,7 +491,7 @@ pub fn run(tier: &str, verif_dir: &str) -> Report {
     let cpinned = cs.iter().filter(|r| r.centre_pinned).count() as u64;
     rep.set("evaluations", json!(cs.len() as u64 + ls.len() as u64));
     rep.set("distinct_nontrivial", json!(pinned + cpinned));
-    rep.set("rule", json!(format!("frozen table generated once from the reference release: {} stored cells (all cells r<=5 + digit-pattern families to r=29) with centre and corner points, {} stored lookups (sphere lattice x resolutions 0..29 + interior points of the stored cells); this run evaluates every {} entry; only entries whose reference answer contained the point with margin max(1e-6 cell, 1e-11), or whose reference output was self-consistent within 1e-12, are pinned; distinct_nontrivial = pinned entries compared", cells.len(), looks.len(), if stride == 1 { "single".to_string() } else { format!("{}rd", stride) })));
+    rep.set("rule", json!(format!("frozen table generated once from the reference release: {} stored cells (all cells r<=5 + digit-pattern families to r=29) with centre and corner points, {} stored lookups (sphere lattice x resolutions 0..29 + interior points of the stored cells); plus the second-generation tables (word-aligned ids: low 8/12/16/20 curve digits all 0 or all 3, every face x quintant; the lattice points written with longitudes +-360 and +-720; the centre reported for every stored cell, raw longitude, looked up at its resolution); this run evaluates every {} entry, and a slice of them again on single fresh threads in descending and in jumping resolution order; only entries whose reference answer contained the point with margin max(1e-6 cell, 1e-11), or whose reference output was self-consistent within 1e-12, are pinned; distinct_nontrivial = pinned entries compared", cells.len(), looks.len(), if stride == 1 { "single".to_string() } else { format!("{}rd", stride) })));
     rep.set("exhaustive", json!(stride == 1));
     rep.set("face_quintant_resolution_combinations_covered", json!(combos.len()));
     rep.set("face_quintant_resolution_combinations_total", json!(want_combos));
